@@ -11,7 +11,8 @@ Reading guide (definitions in Code/Pycode.lean and Code/PycodeWF.lean):
   `wf W v`          `v` is built from classes that exist in world `W`
   `domOK W v`       the property's own domain (no NaN, hashable keys,
                     `init=False` attributes at their default)
-  `importsOK W v`   no two imported classes share a name
+  `renders W v`     `render` returns instead of raising SerializerError: no
+                    outermost name belongs to classes of two modules
 -/
 import XsdataModel.Proofs.Pycode
 
@@ -97,14 +98,14 @@ theorem imports_exact (ts : List ClsRef) (m n : Str) :
     have : (t.module == builtinsMod) = false := by simpa using hnb
     simp [importOf, this]
 
-/-- **imports_sufficient (partial)**: for every world and every value in the
-property's domain, provided no two imported classes share a name, each dotted name the emitted expression uses — class
-constructors at any nesting depth, enum members of nested enums, `QName`,
-`Decimal`, `float`, `set`, `frozenset` — resolves, in the namespace created by the emitted
-import lines alone, to exactly the class it was written for. -/
-theorem imports_sufficient_partial (W : World) (v : Val)
-    (hwf : wf W v = true) (hdom : domOK W v = true) 
-    (himp : importsOK W v = true) :
+/-- **imports_sufficient**: for every world and every value in the property's
+domain for which `render` returns, each dotted name the emitted expression
+uses — class constructors at any nesting depth, enum members of nested enums,
+`QName`, `Decimal`, `float`, `set`, `frozenset` — resolves, in the namespace
+created by the emitted import lines alone, to exactly the class it was written
+for. -/
+theorem imports_sufficient (W : World) (v : Val)
+    (hwf : wf W v = true) (hdom : domOK W v = true) (hr : renders W v = true) :
     EnvGood W (importsEnv W v) (render W v).refs := by
   intro pc hpc
   have hok := valOK_of_dom W v hdom
@@ -112,7 +113,7 @@ theorem imports_sufficient_partial (W : World) (v : Val)
   have hmem := refs_sub_types (render W v) pc hpc
   apply resolve_of_good hg hmem
   intro t ht
-  have := himp
+  have := importsOK_of_renders W v hwf hok hr
   simp only [importsOK, importsOKe, List.all_eq_true] at this
   have h := this pc hpc t ht
   simp only [Bool.or_eq_true, beq_iff_eq, bne_iff_ne] at h
@@ -121,31 +122,44 @@ theorem imports_sufficient_partial (W : World) (v : Val)
   · exact Or.inr (Or.inl h)
   · exact Or.inr (Or.inr h)
 
-/-- **code_rt (partial)**: executing the rendered source — the emitted import
-lines, then the emitted expression — succeeds and yields a value Python-equal
-to the original, for all classes (nested, frozen, with `init=False` fields and
-default factories) and all instances in the domain: members of nested enums,
-tuples (also as dict keys), sets and frozensets, QNames with any text, ±inf,
-Decimals, bytes, date/time values, empty and nested collections, attribute maps. Fields elided
-because they equal their default are restored by the constructor to a value
-equal to the original's. Still excluded: an import name clash (`importsOK`). -/
-theorem code_rt_partial (W : World) (v : Val)
-    (hwf : wf W v = true) (hdom : domOK W v = true) 
-    (himp : importsOK W v = true) :
+/-- **code_rt**: whenever `render` returns, executing the rendered source — the
+emitted import lines, then the emitted expression — succeeds and yields a value
+Python-equal to the original, for all classes (nested, frozen, with
+`init=False` fields and default factories) and all instances in the domain:
+members of nested enums, tuples (also as dict keys), sets and frozensets,
+QNames with any text, ±inf, Decimals, bytes, date/time values, empty and nested
+collections, attribute maps. Fields elided because they equal their default are
+restored by the constructor to a value equal to the original's. -/
+theorem code_rt (W : World) (v : Val)
+    (hwf : wf W v = true) (hdom : domOK W v = true) (hr : renders W v = true) :
     ∃ v', run W v = .ok v' ∧ pyEq v' v = true := by
   obtain ⟨v', h1, h2, _⟩ := rt W (importsEnv W v) v hwf (valOK_of_dom W v hdom)
-    (imports_sufficient_partial W v hwf hdom himp)
+    (imports_sufficient W v hwf hdom hr)
   exact ⟨v', h1, h2⟩
 
 /-- the same, phrased on the outcome class that the correspondence check
 compares with the real `exec` -/
-theorem outcome_equal_partial (W : World) (v : Val)
-    (hwf : wf W v = true) (hdom : domOK W v = true) 
-    (himp : importsOK W v = true) :
+theorem outcome_equal (W : World) (v : Val)
+    (hwf : wf W v = true) (hdom : domOK W v = true) (hr : renders W v = true) :
     outcome W v = cs!"equal" := by
-  obtain ⟨v', hr, he⟩ := code_rt_partial W v hwf hdom himp
+  obtain ⟨v', hrun, he⟩ := code_rt W v hwf hdom hr
   have hrisk := no_risk W v (valOK_of_dom W v hdom)
-  simp [outcome, hrisk, hr, he]
+  simp [outcome, hr, hrisk, hrun, he]
+
+/-- **render either refuses or round-trips**: `PycodeSerializer.render` raises
+`SerializerError` exactly when one outermost name belongs to two modules among
+the types it collected; otherwise it returns the source text, and that source
+evaluates back to an equal object. It never returns source that builds
+something else. -/
+theorem render_refuses_or_round_trips (W : World) (v : Val) (var : Str)
+    (hwf : wf W v = true) (hdom : domOK W v = true) :
+    (sourceE W v var = .error .serializerError ∧ clashFree (render W v).types = false) ∨
+    (sourceE W v var = .ok (source W v var) ∧ ∃ v', run W v = .ok v' ∧ pyEq v' v = true) := by
+  cases hr : renders W v
+  · left
+    exact ⟨by simp [sourceE, hr], by simpa [renders] using hr⟩
+  · right
+    exact ⟨by simp [sourceE, hr], code_rt W v hwf hdom hr⟩
 
 /-- **code_rt for any adequate namespace**: the round trip does not depend on
 how the names got bound — any namespace in which the references resolve will do
@@ -188,95 +202,60 @@ def good : Val :=
            .model in2R [.dict [(.enum topR cs!"B", .qname cs!"{a\\b}\"x")]]],
     .tuple [.enum innerR cs!"A", .dict [(.tuple [.int 1, .int 2], .set true [.tuple [.int 3], .none]), (.int 0, .set false [])]], en, .bool false]
 
-example : wf W1 good = true ∧ domOK W1 good = true ∧ importsOK W1 good = true := by decide
+example : wf W1 good = true ∧ domOK W1 good = true ∧ renders W1 good = true := by decide
 example : outcome W1 good = cs!"equal" := by decide
 
 /-! ## Full-strength statements and why they still fail -/
 
-/-- C18, first half, at full strength: every instance in the domain
-round-trips. **False** of the code as it stands (import name clashes). -/
+/-! ## The property at full strength
+
+`render` is partial since the fix `c18c-01`: it refuses (SerializerError) an
+object graph in which one outermost name belongs to classes of two modules,
+instead of emitting source in which the later import shadows the earlier one.
+Both halves of C18 hold of every object it does render. -/
+
+/-- C18, first half: every instance in the domain that `render` accepts
+round-trips. -/
 def CodeRoundTrips : Prop :=
-  ∀ (W : World) (v : Val), wf W v = true → domOK W v = true →
+  ∀ (W : World) (v : Val), wf W v = true → domOK W v = true → renders W v = true →
     ∃ v', run W v = .ok v' ∧ pyEq v' v = true
 
-/-- C18, second half, at full strength: the emitted imports make every name
-the source uses denote the class it means. **False** of the code as it stands
-(import name clashes). -/
+/-- C18, second half: the emitted imports make every name the source uses
+denote the class it means. -/
 def ImportsSufficient : Prop :=
-  ∀ (W : World) (v : Val), wf W v = true → domOK W v = true →
+  ∀ (W : World) (v : Val), wf W v = true → domOK W v = true → renders W v = true →
     EnvGood W (importsEnv W v) (render W v).refs
 
-/-- decidable form of "running the source fails with `e`" -/
-def failsWith (W : World) (v : Val) (e : Err) : Bool :=
-  match run W v with
-  | .error e' => e' == e
-  | .ok _ => false
+theorem codeRoundTrips : CodeRoundTrips := code_rt
+theorem importsSufficient : ImportsSufficient := imports_sufficient
 
-/-- decidable form of "running the source gives a value unequal to the original" -/
-def givesUnequal (W : World) (v : Val) : Bool :=
-  match run W v with
-  | .ok v' => !pyEq v' v
-  | .error _ => false
-
-theorem not_rt_of_fails {W : World} {v : Val} {e : Err} (h : failsWith W v e = true) :
-    ¬ ∃ v', run W v = .ok v' ∧ pyEq v' v = true := by
-  rintro ⟨v', hr, _⟩
-  simp [failsWith, hr] at h
-
-theorem not_rt_of_unequal {W : World} {v : Val} (h : givesUnequal W v = true) :
-    ¬ ∃ v', run W v = .ok v' ∧ pyEq v' v = true := by
-  rintro ⟨v', hr, he⟩
-  simp [givesUnequal, hr, he] at h
-
-/-- decidable form of `EnvGood` -/
-def envGoodB (W : World) (env : Xs.Code.Env) (refs : List (List Str × ClsRef)) : Bool :=
-  refs.all fun pc => match resolve W env pc.1 with
-    | .ok r => r == pc.2
-    | .error _ => false
-
-theorem envGoodB_of {W : World} {env : Xs.Code.Env} {refs : List (List Str × ClsRef)}
-    (h : EnvGood W env refs) : envGoodB W env refs = true := by
-  simp only [envGoodB, List.all_eq_true]
-  intro pc hpc
-  simp [h pc hpc]
-
-/-- **Defect — the same class name imported from two modules.** The later
-import shadows the earlier one; the source then builds the wrong class
-(unequal) or passes it a keyword it does not know (TypeError). -/
+/-- The former defect (one class name imported from two modules: wrong class
+built, or TypeError for an unknown keyword) is now refused; a class named like
+a builtin the source calls (`float`) next to such a value is refused too. -/
 def addrA : ClsRef := ⟨mA, [cs!"Address"]⟩
 def addrB : ClsRef := ⟨mB, [cs!"Address"]⟩
+def floatCls : ClsRef := ⟨mA, [cs!"float"]⟩
 def W2 : World := [
   ⟨addrA, .model [⟨cs!"x", true, .value .none⟩, ⟨cs!"y", true, .value (.int 0)⟩]⟩,
-  ⟨addrB, .model [⟨cs!"x", true, .value .none⟩, ⟨cs!"w", true, .value (.int 0)⟩]⟩]
+  ⟨addrB, .model [⟨cs!"x", true, .value .none⟩, ⟨cs!"w", true, .value (.int 0)⟩]⟩,
+  ⟨floatCls, .model [⟨cs!"v", true, .value .none⟩]⟩]
 def clashWitness1 : Val := .model addrA [.model addrB [.none, .int 1], .int 0]
 def clashWitness2 : Val := .model addrB [.model addrA [.none, .int 1], .int 0]
+def shadowWitness : Val := .model floatCls [.float .pinf cs!"inf"]
 
-theorem import_name_clash :
+theorem name_clash_is_refused :
     wf W2 clashWitness1 = true ∧ domOK W2 clashWitness1 = true ∧
-    importsEnv W2 clashWitness1 = [(mA, cs!"Address"), (mB, cs!"Address")] ∧
-    givesUnequal W2 clashWitness1 = true ∧
-    wf W2 clashWitness2 = true ∧ domOK W2 clashWitness2 = true ∧
-    failsWith W2 clashWitness2 .typeError = true ∧
-    envGoodB W2 (importsEnv W2 clashWitness1) (render W2 clashWitness1).refs = false := by
+    renders W2 clashWitness1 = false ∧ renders W2 clashWitness2 = false ∧
+    outcome W2 clashWitness1 = cs!"refused:SerializerError" ∧
+    wf W2 shadowWitness = true ∧ domOK W2 shadowWitness = true ∧
+    renders W2 shadowWitness = false := by
   decide
 
-/-- the full-strength round-trip statement is false -/
-theorem not_codeRoundTrips : ¬ CodeRoundTrips := fun h =>
-  not_rt_of_unequal import_name_clash.2.2.2.1
-    (h W2 clashWitness1 import_name_clash.1 import_name_clash.2.1)
-
-/-- the full-strength import statement is false: name clash -/
-theorem not_importsSufficient : ¬ ImportsSufficient := by
-  intro h
-  have := envGoodB_of (h W2 clashWitness1 import_name_clash.1 import_name_clash.2.1)
-  rw [import_name_clash.2.2.2.2.2.2.2] at this
-  cases this
-
-/-- The remaining exclusion is needed: the clash witnesses satisfy `wf` and
-`domOK` and violate only `importsOK`. -/
-theorem exclusions_are_tight :
-    importsOK W2 clashWitness1 = false ∧ importsOK W2 clashWitness2 = false := by
-  decide
+/-- an instance of one of the two `Address` classes alone, or a clashing value
+that is elided because it equals the field default, is rendered -/
+example : renders W2 (.model addrA [.none, .int 3]) = true ∧
+    renders W2 (.model addrA [.none, .int 0]) = true ∧
+    outcome W2 (.model addrB [.model addrB [.none, .int 1], .int 0]) = cs!"equal" := by decide
 
 /-! ## The repaired defects stay repaired
 
